@@ -20,6 +20,7 @@ from .builtin.tags.comment_tag import CommentNode
 from .builtin.tags.doc_tag import DocNode
 from .context import FutureContext
 from .context import RenderContext
+from .exceptions import ContextDepthError
 from .exceptions import LiquidError
 from .exceptions import LiquidInterrupt
 from .exceptions import LiquidSyntaxError
@@ -110,7 +111,13 @@ class BoundTemplate:
             globals=self.make_globals(dict(*args, **kwargs)),
         )
         buf = self._get_buffer()
-        self.render_with_context(context, buf)
+        try:
+            self.render_with_context(context, buf)
+        except RecursionError as err:
+            raise ContextDepthError(
+                "maximum recursion depth exceeded, possible recursive include or render",
+                token=None,
+            ) from err
         return buf.getvalue()
 
     async def render_async(self, *args: Any, **kwargs: Any) -> str:
@@ -120,7 +127,13 @@ class BoundTemplate:
             globals=self.make_globals(dict(*args, **kwargs)),
         )
         buf = self._get_buffer()
-        await self.render_with_context_async(context, buf)
+        try:
+            await self.render_with_context_async(context, buf)
+        except RecursionError as err:
+            raise ContextDepthError(
+                "maximum recursion depth exceeded, possible recursive include or render",
+                token=None,
+            ) from err
         return buf.getvalue()
 
     def _get_buffer(self) -> StringIO:
